@@ -158,7 +158,7 @@ func paramDesc(p *ssa.Parameter, depth int) string {
 	}
 	f := p.Parent()
 	if !bindParams || depth > 8 || bindingBusy[p] || !Eligible(f) {
-		return p.Name()
+		return PN(p)
 	}
 	idx := -1
 	for i, q := range f.Params {
@@ -167,7 +167,7 @@ func paramDesc(p *ssa.Parameter, depth int) string {
 		}
 	}
 	if idx < 0 {
-		return p.Name()
+		return PN(p)
 	}
 	bindingBusy[p] = true
 	defer delete(bindingBusy, p)
@@ -175,17 +175,17 @@ func paramDesc(p *ssa.Parameter, depth int) string {
 	for k, s := range sitesOf(f) {
 		args := s.Common().Args
 		if idx >= len(args) {
-			return p.Name()
+			return PN(p)
 		}
 		d := desc(args[idx], depth+2)
 		if k == 0 {
 			common = d
 		} else if d != common {
-			return p.Name()
+			return PN(p)
 		}
 	}
 	if common == "" {
-		return p.Name()
+		return PN(p)
 	}
 	return common
 }
